@@ -54,7 +54,7 @@ def run(tier, seed):
     R = report.Run('C18', tier, seed); cases = []
     kernel.run_kernels(R, kernels(vlib.workdir('C18')))
     if tier == 'quick': sel = [(d['etf'], [2]), (d['lrec'], [2]), (d['mutual'], [2])]; sel2 = [(d['er1'], [2]), (d['rrec'], [2])]
-    else: sel = [(d[n], [1, 2, 3]) for n in ('etf', 'lrec', 'rrece', 'nullrun', 'mutual', 'd1', 'd2', 'lalr', 'chain')]; sel2 = [(d[n], [2, 3]) for n in ('er1', 'er2', 'd1', 'trail')]
+    else: sel = [(d[n], [1, 2, 3] if n in ('etf', 'lrec') else [1, 2]) for n in ('etf', 'lrec', 'rrece', 'nullrun', 'mutual', 'd1', 'lalr')]; sel2 = [(d[n], [2]) for n in ('er1', 'er2', 'd1', 'trail')]
     A = ['accept', 'value', 'messages', 'positions', 'lexcalls']
     ass = cp.STD_ASSUME[1:] + ['the lexer is a stub: the answer to a request at offset k is the solver-chosen pair (idx[k], len[k]) constrained only by the documented contract '
                                '(idx < number of terms or the default-constructed failure value; 1 <= len <= remaining input)']
